@@ -599,7 +599,18 @@ class Models(Structural):
             return emap(f, dtype, x)
         return f(x)
 
-    @reg('numpy.abs', 'numpy.absolute', 'numpy.fabs')
+    @reg('numpy.fabs')
+    def np_fabs(self, x):
+        """fabs always returns floating point (abs keeps an integer dtype)"""
+        if isinstance(x, (list, tuple)):
+            x = self.np_array(x)
+        if is_arr(x):
+            if x.dtype == 'complex':
+                raise PyExc('TypeError', "ufunc 'fabs' not supported for complex input")
+            return emap(lambda v: T.to_real(T.sabs(v)), 'float', x)
+        return T.to_real(T.sabs(x))
+
+    @reg('numpy.abs', 'numpy.absolute')
     def np_abs(self, x):
         if isinstance(x, (list, tuple)):
             x = self.np_array(x)
@@ -641,12 +652,22 @@ class Models(Structural):
     def np_log(self, x):
         return self._ew1(lambda v: T.slog(v, 'e'), x, 'float')
 
+    def _is_intlike_input(self, x):
+        if isinstance(x, (list, tuple)):
+            x = self.np_array(x)
+        return (is_arr(x) and x.dtype in ('int', 'bool')) or (not is_arr(x) and T.is_int_like(N(x)) and not isinstance(N(x), bool))
+
     @reg('numpy.ceil')
     def np_ceil(self, x):
+        # NumPy >= 2.1 (installed: 2.5): integer input stays integer (identity); floating input gives floating whole numbers
+        if self._is_intlike_input(x):
+            return self._ew1(lambda v: v, x, 'int') if not (is_arr(x) and x.dtype == 'bool') else x
         return self._ew1(lambda v: T.to_real(T.sceil(v)), x, 'float')
 
     @reg('numpy.floor')
     def np_floor(self, x):
+        if self._is_intlike_input(x):
+            return self._ew1(lambda v: v, x, 'int') if not (is_arr(x) and x.dtype == 'bool') else x
         return self._ew1(lambda v: T.to_real(T.sfloor(v)), x, 'float')
 
     @reg('numpy.radians', 'numpy.deg2rad')
@@ -978,8 +999,11 @@ class Models(Structural):
         raise EngineError('sum over %d-d closure array axis=%r' % (nd, axis))
 
     @reg('numpy.mean')
-    def np_mean(self, x, axis=None):
+    def np_mean(self, x, axis=None, dtype=None):
+        from .lib import dtype_name
         x = self.asarray(x)
+        if dtype is not None and dtype_name(dtype, 'float') not in ('float',):
+            raise EngineError('numpy.mean(dtype=%s) not modelled' % dtype_name(dtype, None))       # (an integer accumulator truncates)
         s = self.np_sum(x, axis=axis)
         nd = len(x.shape)
         ax = _axis(axis, nd)
